@@ -28,8 +28,17 @@ func genStream(r *gen.Rand, cfg gen.ProgCfg, files map[string]string, maxMerges 
 	var planted []string
 	child := gen.ChildCfg{Tree: cfg.Tree, Edits: r.Range(1, 3), PUseless: 0.03}
 	var merges []wire.Op
-	// base stream
+	// base stream (now and then a long one)
 	nBase := r.Range(1, 3)
+	if r.Chance(0.03) {
+		nBase = r.Range(8, 12)
+		if nBase > maxMerges-1 {
+			nBase = maxMerges - 1
+		}
+		if nBase < 1 {
+			nBase = 1
+		}
+	}
 	var prev []string
 	var prevTrees []any
 	for i := 0; i < nBase; i++ {
